@@ -324,6 +324,33 @@ def h2cFieldElems (curve : String) (dst msg : ByteArray) : Option (List (List Na
 def defaultDst? (curve : String) : Option ByteArray :=
   (genSuite? curve).map fun G => (Gen.H2CMaps.appTag ++ G.suite).toUTF8
 
+/-! ### the hypotheses of the map theorems, evaluated for the real suites
+
+`Props/C19H2C.lean` proves `sswu_on_curve` / `elligator2_on_curve` under hypotheses on the constants that cannot be
+discharged in Lean for 255–381-bit fields without a primality certificate (`¬IsSquare Z`, `IsSquare g(B/(Z·A))`,
+`¬IsSquare (-1)` resp. `¬IsSquare 2`).  The driver evaluates them with Euler's criterion in the executable fields
+(op `h2chyp`); the constants are those of `rfcSuites`, which `h2c_constants_match_source` ties to the source. -/
+def theoremHypotheses (curve : String) : Option (List (String × Bool)) := do
+  let S ← rfcSuite? curve
+  let C ← Curves.byName? curve
+  withQ C.p fun q =>
+    match C.kind with
+    | .weierstrass =>
+      let A : Fp q := fpOfList S.A
+      let B : Fp q := fpOfList S.B
+      let Z : Fp q := fpOfList S.Z
+      let x := B * (Z * A)⁻¹
+      some [("A≠0", A.val != 0), ("¬IsSquare Z", !Fp.isSquare Z), ("IsSquare g(B/(Z·A))", Fp.isSquare (x * x * x + A * x + B)),
+            ("sqrt_ratio variant", if q % 4 == 3 then !Fp.isSquare (-(Fp.ofNat q 1)) else true)]
+    | .weierstrass2 =>
+      let A : Fp2 q := fp2OfList S.A
+      let B : Fp2 q := fp2OfList S.B
+      let Z : Fp2 q := fp2OfList S.Z
+      let x := B * (Z * A)⁻¹
+      some [("A≠0", A != ⟨Fp.ofNat q 0, Fp.ofNat q 0⟩), ("¬IsSquare Z", !isSquareFp2 Z), ("IsSquare g(B/(Z·A))", isSquareFp2 (x * x * x + A * x + B))]
+    | .edwards =>
+      some [("¬IsSquare 2", !Fp.isSquare (Fp.ofNat q 2)), ("q ≡ 5 mod 8", q % 8 == 5)]
+
 /-! ### the regenerated suite constants against the published ones
 
 `constantFailures` lists the names of the checks that fail; `Props/C19H2C.lean` proves it empty by `decide`.
